@@ -286,6 +286,7 @@ pub struct Ctx {
     viol_counts: BTreeMap<String, u64>,
     notes: Map<String, Value>,
     exhaustive: Vec<String>,
+    inconclusive: Vec<String>,
     stream_names: Vec<String>,
     watch: Arc<Watch>,
     trace: Option<std::fs::File>,
@@ -331,6 +332,7 @@ impl Ctx {
             viol_counts: BTreeMap::new(),
             notes: Map::new(),
             exhaustive: vec![],
+            inconclusive: vec![],
             stream_names: vec![],
             watch,
             trace,
@@ -528,6 +530,14 @@ impl Ctx {
         self.exhaustive.push(what.to_string());
     }
 
+    /// Something prevented a verdict for part of the workload (a wall-clock guard fired, a tool
+    /// is missing). Never a violation; the driver turns it into exit code 2.
+    pub fn inconclusive(&mut self, reason: String) {
+        if self.inconclusive.len() < 5 {
+            self.inconclusive.push(reason);
+        }
+    }
+
     /// Records a rejected history. `sig` identifies the *kind* of discrepancy (used for the
     /// known-findings protocol); `data` must contain everything needed to understand the case.
     pub fn violation(&mut self, sig: &str, stream: &str, case: u64, desc: String, data: Value) {
@@ -578,6 +588,7 @@ impl Ctx {
             "samples": self.samples,
             "notes": Value::Object(self.notes),
             "exhaustive": self.exhaustive,
+            "inconclusive": self.inconclusive,
             "violation_counts": self.viol_counts,
             "violations": self.violations.iter().map(|v| json!({
                 "sig": v.sig, "stream": v.stream, "case": v.case, "desc": v.desc, "data": v.data,
